@@ -310,6 +310,16 @@ class Escape:
             if any(t.name == 'to_ipaddr' for t in r.targets):
                 return 'XfrmAddress.to_ipaddr result'
         if isinstance(arg, ast.Name):
+            defs = self.res.local_defs(fi).get(arg.id, [])
+            if defs and all((isinstance(v, ast.Call) and src(v.func) == 'bytes' and len(v.args) == 1
+                             and isinstance(v.args[0], ast.Attribute))
+                            or (isinstance(v, ast.Subscript) and isinstance(v.slice, ast.Slice)
+                                and src(v.value) == arg.id and v.slice.lower is None
+                                and isinstance(v.slice.upper, ast.Constant) and v.slice.upper.value == 4)
+                            for v in defs) and fi.cls is not None and fi.cls.lookup_attr('_fields_') is not None:
+                fields = src(fi.cls.lookup_attr('_fields_'))
+                if 'c_uint32 * 4' in fields or 'c_ubyte * 16' in fields:
+                    return '16-octet ctypes array or its 4-octet prefix'
             d = self._local_single_def(fi, arg.id)
             if isinstance(d, tuple) and d[0] == 'unpack' and isinstance(d[1], ast.Call):
                 call = d[1]
@@ -423,6 +433,10 @@ class Escape:
                     out.append(('struct.error', 'pack with non-constant format', call))
                 elif struct_fields(fmt)[0] != nargs:
                     out.append(('struct.error', 'pack %r with %d values' % (fmt, nargs), call))
+            elif lib == 'method.decode' and (len(call.args) > 1 or any(
+                    k.arg == 'errors' and isinstance(k.value, ast.Constant) and k.value.value != 'strict'
+                    for k in call.keywords)):
+                pass    # bytes.decode(errors='replace'/'backslashreplace'/'ignore') cannot fail
             elif lib in LIB_RAISES:
                 for e in LIB_RAISES[lib]:
                     out.append((e, '%s' % src(call)[:60], call))
@@ -532,7 +546,7 @@ class Escape:
             if self.kills is not None:
                 kept = []
                 for (exc, text, an) in effs:
-                    why = self.kills(fi, n, exc, text)
+                    why = self.kills(fi, n, exc, text, None)
                     if why:
                         self.killed.append((fi.qual, exc, text, why))
                     else:
@@ -616,7 +630,7 @@ class Escape:
             for t, call in cmap[n.id]:
                 for exc, origins in self.esc.get(t.qual, {}).items():
                     if self.kills is not None:
-                        why = self.kills(fi, n, exc, 'call ' + t.qual)
+                        why = self.kills(fi, n, exc, 'call ' + t.qual, call)
                         if why:
                             continue
                     d = r.setdefault(exc, {})
